@@ -290,6 +290,14 @@ def check_no_failure_after_insert(cfg, w, rep, tag):
             after = cf.reachable(blk.i)
             bad = None
             for rd in ret_defs(prog, body):
+                if rd.cls == "delegated" and rd.blk in after and rd.blk != blk.i and rd.origin is not None and rd.origin.callee is not None and \
+                        re.search(r"Result::<T, E>::(and|and_then|or|or_else)$", rd.origin.callee.path) and rd.origin.term is not None:
+                    # `check().and(insert(..))`: both operands are evaluated, the insertion first — and the check's error wins
+                    others = [a for a in rd.origin.term.args
+                              if not all(x.kind == "call" and x.term is t for x in prog.resolve_op(body, a, OKFLOW, rd.origin.blk))]
+                    if others:
+                        bad = rd
+                        break
                 if rd.cls != "failure" or rd.blk not in after or rd.blk == blk.i:
                     continue
                 pay = prog.resolve_lifted(body, 0, (("v", "Err"), ("f", "0")), OKFLOW, at=rd.blk)
